@@ -60,7 +60,17 @@ type Program struct {
 	ReadBefore int     `json:"read_before"` // tokens read before writing; -1 = until an error
 	Writes     []Write `json:"writes"`
 	ReadAfter  int     `json:"read_after"`
-	Ret        string  `json:"ret"` // nil | err | streamerr | eof
+	Ret        string  `json:"ret"` // nil | err | streamerr | stanzaerr | stanzaerr-wrapped | eof
+}
+
+// Collision describes an "id collision" case: while one of our own requests
+// with id ID is pending (sent through Via on another goroutine), the peer
+// sends a get/set IQ with the same id (Input[0]), then a sentinel ping, then
+// the real response to our request, then the closing tag.
+type Collision struct {
+	Via     string `json:"via"`      // SendIQ | SendIQElement | UnmarshalIQ | SendMessage | SendPresence
+	ReqType string `json:"req_type"` // type of our own IQ request: get | set
+	ID      string `json:"id"`
 }
 
 // Scenario is a complete case.
@@ -71,6 +81,10 @@ type Scenario struct {
 	Mode     string    `json:"mode"`  // bare | mux-reg | mux-unreg
 	Input    []string  `json:"input"` // raw top-level elements (and white space) sent by the peer
 	Programs []Program `json:"programs"`
+	// Collision, when set, turns the case into the concurrent id-collision
+	// scenario (Input and Programs then describe the colliding request and the
+	// sentinel).
+	Collision *Collision `json:"collision,omitempty"`
 }
 
 var writeKinds = []string{
@@ -317,13 +331,17 @@ func genProgram(r *rand.Rand, streamNS string) Program {
 		}
 		p.Writes = append(p.Writes, w)
 	}
-	switch x := r.Intn(20); {
+	switch x := r.Intn(22); {
 	case x < 15:
 		p.Ret = "nil"
 	case x < 17:
 		p.Ret = "err"
 	case x < 18:
 		p.Ret = "streamerr"
+	case x < 19:
+		p.Ret = "stanzaerr"
+	case x < 20:
+		p.Ret = "stanzaerr-wrapped"
 	default:
 		p.Ret = "eof"
 		// one misbehaviour at a time: a program that returns io.EOF does not also
@@ -354,6 +372,10 @@ func gen(r *rand.Rand) Scenario {
 			local = "me@example.net/lib"
 		}
 	}
+	if r.Intn(200) == 0 {
+		genCollision(r, &sc, o.NS())
+		return sc
+	}
 	n := 1 + r.Intn(4)
 	if r.Intn(2) == 0 {
 		n = 1
@@ -366,6 +388,27 @@ func gen(r *rand.Rand) Scenario {
 		sc.Programs = append(sc.Programs, genProgram(r, o.NS()))
 	}
 	return sc
+}
+
+const sentinelID = "c07-sentinel"
+
+func genCollision(r *rand.Rand, sc *Scenario, streamNS string) {
+	id := pick(r, "1", "42", "c07-collide", "a&b")
+	sc.Collision = &Collision{
+		Via:     pick(r, "SendIQ", "SendIQ", "SendIQElement", "UnmarshalIQ", "SendMessage", "SendPresence"),
+		ReqType: pick(r, "get", "set"),
+		ID:      id,
+	}
+	from := pick(r, "juliet@example.org/balcony", "example.org", "romeo@example.org")
+	sc.Input = []string{
+		fmt.Sprintf("<iq type='%s' id='%s' from='%s'>%s</iq>", pick(r, "get", "set"), esc(id), from, pick(r, `<q xmlns='urn:c07:a'/>`, `<query xmlns='urn:c07:b' node='n'>text</query>`)),
+		fmt.Sprintf("<iq type='get' id='%s' from='%s'><ping xmlns='urn:xmpp:ping'/></iq>", sentinelID, from),
+	}
+	// the request's program never ends the stream (the real response must still
+	// be deliverable); the sentinel is left to the library's automatic reply
+	p := genProgram(r, streamNS)
+	p.Ret = "nil"
+	sc.Programs = []Program{p, {Ret: "nil"}}
 }
 
 // ---------------------------------------------------------------------------
@@ -389,6 +432,10 @@ type runState struct {
 	writes   []writeRec
 	rets     []string // per element: what the program returned ("" = never ran)
 	nmark    int
+	byKey    bool   // collision cases: elements are recognised by (id, type), not by order
+	invoked  []bool // per element: the serve loop handed it to the handler
+	extra    int    // byKey: invocations for elements that are not in exp
+	input    string
 }
 
 func (st *runState) marker() string {
@@ -552,6 +599,10 @@ func (st *runState) exec(rw xmlstream.TokenReadEncoder) error {
 		return errProgram
 	case "streamerr":
 		return stream.PolicyViolation
+	case "stanzaerr":
+		return stanza.Error{Type: stanza.Wait, Condition: stanza.InternalServerError}
+	case "stanzaerr-wrapped":
+		return fmt.Errorf("c07: handler failed: %w", stanza.Error{Type: stanza.Modify, Condition: stanza.NotAcceptable})
 	case "eof":
 		return io.EOF
 	}
@@ -624,15 +675,16 @@ func modeKey(m string) string {
 	return "mux"
 }
 
-// Run executes one scenario and judges it.
-func Run(c *core.Case, sc Scenario) {
-	c.Sample(sc)
+// build creates the session, the reference parse of the input and the handler
+// given to Serve.
+func build(c *core.Case, sc Scenario) (p *sess.Pair, st *runState, outer xmpp.Handler, ok bool) {
 	o := sess.Opts{S2S: sc.S2S, Received: sc.Received, Local: sc.Local}
-	p, err := sess.NewPair(o)
+	var err error
+	p, err = sess.NewPair(o)
 	if err != nil {
 		c.Notef("session setup failed: %v", err)
 		c.Count("setup_failed", 1)
-		return
+		return nil, nil, nil, false
 	}
 	o = p.Opts
 	ns := o.NS()
@@ -641,9 +693,10 @@ func Run(c *core.Case, sc Scenario) {
 	if ref.Err != nil || !ref.Closed || len(ref.Elems) != len(sc.Programs) {
 		c.Notef("generator produced an unusable input: %v closed=%v elems=%d programs=%d", ref.Err, ref.Closed, len(ref.Elems), len(sc.Programs))
 		c.Count("generator_rejects", 1)
-		return
+		return nil, nil, nil, false
 	}
-	st := &runState{sc: sc, o: o, exp: ref.Elems, cur: -1, rets: make([]string, len(sc.Programs))}
+	st = &runState{sc: sc, o: o, exp: ref.Elems, cur: -1, rets: make([]string, len(sc.Programs)),
+		invoked: make([]bool, len(sc.Programs)), byKey: sc.Collision != nil, input: input}
 
 	prog := xmpp.HandlerFunc(func(rw xmlstream.TokenReadEncoder, start *xml.StartElement) error {
 		return st.exec(rw)
@@ -702,18 +755,45 @@ func Run(c *core.Case, sc Scenario) {
 		}
 		var m *mux.ServeMux
 		if c.Guard("mux.New", func() { m = mux.New(ns, opts...) }) {
-			return
+			return nil, nil, nil, false
 		}
 		inner = m
 	}
-	outer := xmpp.HandlerFunc(func(rw xmlstream.TokenReadEncoder, start *xml.StartElement) error {
+	outer = xmpp.HandlerFunc(func(rw xmlstream.TokenReadEncoder, start *xml.StartElement) error {
+		if st.byKey {
+			for i, n := range st.exp {
+				if start.Name == n.Name && attrOf(start, "id") == n.Attr("id") && attrOf(start, "type") == n.Attr("type") {
+					st.cur = i
+					st.invoked[i] = true
+					return inner.HandleXMPP(rw, start)
+				}
+			}
+			st.extra++
+			return nil
+		}
 		st.cur++
 		if st.cur >= len(st.exp) || start.Name != st.exp[st.cur].Name || attrOf(start, "id") != st.exp[st.cur].Attr("id") {
 			st.mismatch = true
 			return nil
 		}
+		st.invoked[st.cur] = true
 		return inner.HandleXMPP(rw, start)
 	})
+	return p, st, outer, true
+}
+
+// Run executes one scenario and judges it.
+func Run(c *core.Case, sc Scenario) {
+	c.Sample(sc)
+	if sc.Collision != nil {
+		runCollision(c, sc)
+		return
+	}
+	p, st, outer, ok := build(c, sc)
+	if !ok {
+		return
+	}
+	input := st.input
 
 	p.Send(input)
 	p.ClosePeer()
@@ -729,9 +809,18 @@ func Run(c *core.Case, sc Scenario) {
 		c.Count("dispatch_mismatch_unjudged", 1)
 		return
 	}
-	wire := xmltree.ParseStream(p.Lib.Written(), true)
+	judge(c, sc, p.Opts, st, p.Lib.Written(), serveErr, nil)
+}
+
+// judge compares what the library wrote with the reference.  ownRequest, when
+// not nil, recognises our own outgoing request on the wire (collision cases):
+// exactly one such element is set aside, and every element of the input is
+// taken to have been read by the serve loop.
+func judge(c *core.Case, sc Scenario, o sess.Opts, st *runState, written []byte, serveErr error, ownRequest func(*xmltree.Node) bool) {
+	ns := o.NS()
+	wire := xmltree.ParseStream(written, true)
 	if wire.Err != nil || wire.Trailing || wire.Header == nil {
-		c.Violate("oracle:wire-unparseable", "cannot parse what the library wrote: err=%v trailing=%v\n%s", wire.Err, wire.Trailing, p.Lib.Written())
+		c.Violate("oracle:wire-unparseable", "cannot parse what the library wrote: err=%v trailing=%v\n%s", wire.Err, wire.Trailing, written)
 		return
 	}
 	if serveErr != nil {
@@ -756,6 +845,11 @@ func Run(c *core.Case, sc Scenario) {
 		if e.Name.Space == sess.NSStream {
 			continue // a stream error the session sent: not a stanza
 		}
+		if ownRequest != nil && ownRequest(e) {
+			ownRequest = nil
+			c.Count("collision_own_request_on_wire", 1)
+			continue
+		}
 		lib = append(lib, e)
 	}
 	c.Count("wire_elements", len(wire.Elems))
@@ -769,13 +863,25 @@ func Run(c *core.Case, sc Scenario) {
 			anyUnconstrained = true
 		}
 	}
-	lastInvoked := st.cur
+	lastInvoked := -1
+	for i, v := range st.invoked {
+		if v {
+			lastInvoked = i
+		}
+	}
+	if sc.Collision != nil {
+		lastInvoked = len(st.exp) - 1 // the barrier showed that the serve loop read them all
+	}
 	used := make([]bool, len(lib))
 
 	for i, n := range st.exp {
 		cl := classes[i]
 		prog := sc.Programs[i]
 		c.Count("stanzas_"+cl.Name, 1)
+		if strings.HasPrefix(st.rets[i], "stanzaerr") && strings.HasPrefix(cl.Name, "iq-") {
+			c.Count("iq_handler_returned_stanza_error", 1)
+			c.Count("iq_handler_returned_stanza_error_"+modeKey(sc.Mode), 1)
+		}
 		if i > lastInvoked {
 			c.Count("never_dispatched", 1)
 			continue
@@ -852,6 +958,8 @@ func Run(c *core.Case, sc Scenario) {
 				switch {
 				case hIntended > 0:
 					return "handler-reply-lost"
+				case sc.Collision != nil:
+					return "id-collision"
 				case st.rets[i] == "eof":
 					return "handler-eof"
 				case sc.Mode != "bare" && !cl.HasPayload:
@@ -1037,7 +1145,7 @@ func Prop() *core.Prop {
 	return &core.Prop{
 		ID:    "C07",
 		Level: core.Exploration,
-		Rule:  "a case is one pre-loaded stream of 1-4 PRNG-built top-level elements (IQ of every type/id/from/to/payload shape, message, presence, others; client and server namespaces) served single-threaded by Session.Serve with one interpreted handler program per element (reads none/part/all; writes 0-3 marked elements out of 15 kinds through EncodeToken, xmlstream.Copy or Encode; returns nil, an error, a stream error or io.EOF), directly, behind mux.ServeMux with the program registered for the payload, and behind it with nothing registered. The wire is re-parsed independently; unmarked top-level elements are the library's additions and are attributed to requests by id. Distinct = distinct (mode, s2s, stanza class, payload present, written kinds, read class, return, additions, outcome).",
+		Rule:  "a case is one pre-loaded stream of 1-4 PRNG-built top-level elements (IQ of every type/id/from/to/payload shape, message, presence, others; client and server namespaces) served single-threaded by Session.Serve with one interpreted handler program per element (reads none/part/all; writes 0-3 marked elements out of 15 kinds through EncodeToken, xmlstream.Copy or Encode; returns nil, an error, a stream error, a stanza.Error plain or wrapped, or io.EOF), directly, behind mux.ServeMux with the program registered for the payload, and behind it with nothing registered. The wire is re-parsed independently; unmarked top-level elements are the library's additions and are attributed to requests by id. One case in 200 is a concurrent id-collision scenario instead: Serve on its own goroutine, a requester goroutine with a pending SendIQ/SendIQElement/UnmarshalIQ/SendMessage/SendPresence of id X, the peer sends a get/set IQ with the same id X and a sentinel ping, waits for the ping's reply, then sends the real response and the closing tag; the usual reply rule is applied to the colliding request, which must also reach the handler, and the requester must get the response and not the request. Distinct = distinct (mode, s2s, stanza class, payload present, written kinds, read class, return, additions, outcome).",
 		Assumptions: []string{
 			"the exception 'unless the stream itself is terminated with a stream error' is read as: Serve returned a non-nil error while handling that element (DESIGN.md C07); the stream-error bytes themselves are only counted",
 			"IQs without id or with an empty id, with a type outside get/set/result/error, or named iq in the other stanza namespace are unconstrained",
@@ -1055,6 +1163,9 @@ func Prop() *core.Prop {
 			"mode_bare", "mode_mux-reg", "mode_mux-unreg",
 			"requests_with_id", "answered_by_handler", "answered_by_library", "answered_by_mux_fallback_or_session",
 			"must_not_be_answered", "requests_exempt_stream_ended_with_error", "reply_addressed_to_sender",
+			"collision_cases", "collision_barrier_reached", "collision_own_request_on_wire", "collision_request_reached_handler", "collision_requester_got_response",
+			"collision_via_SendIQ", "collision_via_SendIQElement", "collision_via_UnmarshalIQ", "collision_via_SendMessage", "collision_via_SendPresence",
+			"iq_handler_returned_stanza_error_bare", "iq_handler_returned_stanza_error_mux",
 			"stanzas_iq-get", "stanzas_iq-set", "stanzas_iq-result", "stanzas_iq-error", "stanzas_message", "stanzas_presence", "stanzas_other",
 		},
 		Witnesses: witnesses(),
